@@ -74,13 +74,13 @@ def run(ctx: Context) -> None:
         t = split[0].value.test
         types = set()
         if len(t.args) == 2 and mi.match('$x', t.args[0], commit=False):
-            tt = t.args[1]
+            tt = ctx.flow(ip).resolve(t.args[1])
             types = {norm_text(e).rsplit('.', 1)[-1] for e in (tt.elts if isinstance(tt, ast.Tuple) else [tt])}
         ok = {'GeometryCollection', 'MultiLineString'} <= types and mi.match('$geoms = $x.geoms if $$t else [$x]', split[0])
     ctx.check('R18.1', ok, "multi-part results (GeometryCollection and MultiLineString) are split into their parts; a single geometry is taken as is", ip,
               tests[0] if tests else ip.node, construct=f"multi-part split: {norm_text(tests[0]) if tests else 'absent'}")
     ok = inter is not None and bool(ip.returns()) and all(
-        mi.match('[$g for $g in $geoms if isinstance($g, shapely.LineString)]', r.value, commit=False) for r in ip.returns())
+        mi.match('[$g for $g in $geoms if isinstance($g, shapely.LineString)]', ctx.flow(ip).resolve(r.value), commit=False) for r in ip.returns())
     ctx.check('R18.1', bool(ok), "the pieces are the LineString parts of polygon ∩ path", ip, ip.node,
               construct='return [g for g in geoms if isinstance(g, shapely.LineString)]')
 
